@@ -102,10 +102,16 @@ def run(ctx):
             elif code & 1:
                 dis += 1
                 st["broken"].append("calendar correspondence: model and implementation disagree at t=%d -> %r" % (secs[i], results["UTC"][i]))
+    # ---- setter sweep: every attribute the property lists, several kinds of value, both settings
+    sweep = ctx.run_impl("impl_touchsweep.py", {})
+    for e in sweep:
+        if not e["ok"]:
+            fails.append(("setter does not follow the timestamp rule", e["setter"] + (" (auto on)" if e["auto"] else " (auto off)"), e))
+    ctx.coverage["setter_sweep_cases"] = len(sweep)
     if fails and not ctx.violations:
         rp = ctx.write_replay("%s-calendar-seed%d.json" % (ID, ctx.seed), {"property": ID, "kind": fails[0][0],
-                                                                              "input": {"seconds": fails[0][1]}, "observed": fails[0][2]})
-        ctx.violation("%d calendar failures, e.g. %s at t=%r: %r" % (len(fails), fails[0][0], fails[0][1], fails[0][2]), rp)
+                                                                              "input": {"case": fails[0][1]}, "observed": fails[0][2]})
+        ctx.violation("%d failures, e.g. %s: %r -> %r" % (len(fails), fails[0][0], fails[0][1], fails[0][2]), rp)
     ctx.coverage["calendar_seconds"] = len(secs)
     ctx.coverage["evaluations"] += len(secs)
     return st
